@@ -212,15 +212,21 @@ func (sr *sessRun) checkTerm(s *session, x *expectTerm, what string) {
 		return
 	}
 	c := status.Code(s.termErr)
+	// the code must be one of the admissible ones, and with it the reason that goes with that code (several
+	// violations may be present at once: any admissible (code, reason) pair will do)
+	codeSeen, bad := false, -1
 	for i, want := range x.codes {
 		if c != want {
 			continue
 		}
-		if x.reasons[i] != 0 && len(x.codes) == 1 {
-			if got := modifyReason(s.termErr); got != x.reasons[i] {
-				e.report("C09", "wrong-reason", x.why[i]+": ModifyRPCErrorDetails reason", fmt.Sprintf("%s: want %v got %v (%v)", what, x.reasons[i], got, s.termErr), false)
-			}
+		codeSeen = true
+		if x.reasons[i] == 0 || modifyReason(s.termErr) == x.reasons[i] {
+			return
 		}
+		bad = i
+	}
+	if codeSeen {
+		e.report("C09", "wrong-reason", x.why[bad]+": ModifyRPCErrorDetails reason", fmt.Sprintf("%s: want %v got %v (%v)", what, x.reasons[bad], modifyReason(s.termErr), s.termErr), false)
 		return
 	}
 	e.report("C09", "wrong-status", x.why[0]+": status code "+c.String(), fmt.Sprintf("%s: want one of %v got %v", what, x.codes, s.termErr), false)
